@@ -31,8 +31,10 @@ pub struct Case {
     pub l2: Option<(u8, usize)>,
     pub rb: Option<(u8, usize)>,
     pub rdonly: bool,
-    /// "format" (the code's own formatter) or "file:<path>" (+ optional backing files)
+    /// "format" (the code's own formatter), "built" (independent builder),
+    /// "built+back" / "built+backshort" (with a built backing image)
     pub img: String,
+    pub ver: u32,
     pub ops: Vec<Op>,
 }
 
@@ -93,7 +95,7 @@ impl Op {
 impl Case {
     pub fn header(&self) -> String {
         format!(
-            "case id={} seed={} cb={} ro={} size={} bsb={} l2={} rb={} rdonly={} img={}",
+            "case id={} seed={} cb={} ro={} size={} bsb={} l2={} rb={} rdonly={} img={} ver={}",
             self.id,
             self.seed,
             self.cb,
@@ -103,7 +105,8 @@ impl Case {
             cache_txt(&self.l2),
             cache_txt(&self.rb),
             self.rdonly as u8,
-            self.img
+            self.img,
+            self.ver
         )
     }
 
@@ -142,6 +145,7 @@ impl Case {
             rb: cache_parse(&g("rb")),
             rdonly: g("rdonly") == "1",
             img: g("img"),
+            ver: g("ver").parse().unwrap_or(3),
             ops,
         }
     }
@@ -160,6 +164,10 @@ pub enum Profile {
     Churn,
     /// boundary / invalid arguments (C13)
     Validate,
+    /// frequent flush / shrink / reopen (C02, C18)
+    Flushy,
+    /// partial writes over backing-provided and compressed clusters (C10)
+    Cow,
 }
 
 pub fn pick_slice(rng: &mut Rng, bsb: u8, cb: usize, allow_default: bool) -> Option<(u8, usize)> {
@@ -259,9 +267,159 @@ pub fn gen_case(seed: u64, id: usize, profile: Profile, nops: usize) -> Case {
         rb: None,
         rdonly: false,
         img: "format".into(),
+        ver: 3,
         ops: Vec::new(),
     };
     gen_geometry(&mut rng, &mut c);
+    gen_ops(&mut rng, &mut c, profile, nops);
+    c
+}
+
+/// images for a case: (files top first, sidecar lines for the driver)
+pub struct CaseImages {
+    pub files: Vec<Vec<u8>>,
+    pub comp: Vec<String>,
+    pub flat: Vec<String>,
+}
+
+/// a case over an image from the independent builder; geometry comes from the layout
+pub fn gen_built_case(seed: u64, id: usize, profile: Profile, nops: usize, kind: &str) -> Case {
+    let mut rng = Rng::derive(seed, 3, id as u64);
+    let (layout, _, _) = built_layouts(seed, id, kind);
+    let bsb = rng.range(9, 12.min(layout.cb as u64)) as u8;
+    let mut c = Case {
+        id,
+        seed,
+        cb: layout.cb,
+        ro: layout.ro,
+        size: layout.size,
+        bsb,
+        l2: None,
+        rb: None,
+        rdonly: false,
+        img: kind.to_string(),
+        ver: layout.version,
+        ops: Vec::new(),
+    };
+    c.l2 = pick_slice(&mut rng, bsb, c.cb, true);
+    c.rb = pick_slice(&mut rng, bsb, c.cb, true);
+    if c.l2.is_none() != c.rb.is_none() {
+        c.rb = c.l2;
+    }
+    let (_, back, _) = built_layouts(seed, id, kind);
+    if let Some(b) = back {
+        if b.cb != c.cb {
+            // the same parameters are used for every image of the chain: only the
+            // defaults fit images with different cluster sizes
+            c.l2 = None;
+            c.rb = None;
+            c.bsb = 9;
+            gen_ops(&mut rng, &mut c, profile, nops);
+            for op in c.ops.iter_mut() {
+                if let Op::Reopen { .. } = op {
+                    *op = Op::Reopen { bsb: 9, l2: None, rb: None };
+                }
+            }
+            return c;
+        }
+    }
+    gen_ops(&mut rng, &mut c, profile, nops);
+    c
+}
+
+/// deterministic layouts of a built case: (top, optional backing, rng for placement)
+pub fn built_layouts(seed: u64, id: usize, kind: &str) -> (crate::build::Layout, Option<crate::build::Layout>, Rng) {
+    let mut rng = Rng::derive(seed, 2, id as u64);
+    let with_back = kind.contains("+back");
+    let mut top = crate::build::gen_layout(&mut rng, with_back, true);
+    let back = if with_back {
+        let mut b = crate::build::gen_layout(&mut rng, false, true);
+        if rng.chance(3, 4) && b.cb != top.cb {
+            // usual case: the chain shares one cluster size
+            let mut tries = 0;
+            while b.cb != top.cb && tries < 200 {
+                b = crate::build::gen_layout(&mut rng, false, true);
+                tries += 1;
+            }
+        }
+        // same cluster size is not required by the format; keep the token spaces apart
+        crate::build::retag(&mut b, 0xB000_0000_0000);
+        if kind.contains("backshort") {
+            // backing shorter than the top image
+            if b.size >= top.size {
+                let cs = 1u64 << b.cb;
+                let n = (top.size / 2 / cs).max(1);
+                b.size = n * cs;
+                b.states.truncate(n as usize);
+                b.tok_base.truncate(n as usize);
+            }
+        } else if b.size < top.size {
+            // make the backing at least as large as the top: regenerate states
+            let cs = 1u64 << b.cb;
+            let n = top.size.div_ceil(cs);
+            b.size = n * cs;
+            while (b.states.len() as u64) < n {
+                let g = b.states.len() as u64;
+                b.states.push(if g % 3 == 0 { crate::build::GState::Unalloc } else { crate::build::GState::Data });
+                b.tok_base.push(0xB000_0000_0000 + (g << 16));
+            }
+        }
+        Some(b)
+    } else {
+        None
+    };
+    if !with_back {
+        top.backing_name = None;
+    }
+    (top, back, rng)
+}
+
+pub fn case_images(case: &Case) -> Result<CaseImages, String> {
+    if case.img == "format" {
+        let img = format_image(case.size, case.cb, case.ro, 1 << case.bsb).map_err(|_| "format err".to_string())?;
+        return Ok(CaseImages { files: vec![img], comp: vec![], flat: vec![] });
+    }
+    let (top, back, mut rng) = built_layouts(case.seed, case.id, &case.img);
+    let bt = crate::build::build(&top, &mut rng);
+    let bb = back.as_ref().map(|b| crate::build::build(b, &mut rng));
+    let mut comp = Vec::new();
+    for (o, t) in &bt.comp {
+        comp.push(format!("top {} {}", o, t));
+    }
+    let spc_top = (1usize << top.cb) / SECTOR;
+    let nsec = (top.size as usize) / SECTOR;
+    let mut flat: Vec<Option<u64>> = Vec::new();
+    for s in 0..nsec {
+        let v = match bt.content.get(s).copied().flatten() {
+            Some(v) => v,
+            None => match (&back, &bb) {
+                (Some(bl), Some(bbt)) => {
+                    if (s as u64 + 1) * 512 <= bl.size {
+                        bbt.content.get(s).copied().flatten().unwrap_or(0)
+                    } else {
+                        0
+                    }
+                }
+                _ => 0,
+            },
+        };
+        flat.push(Some(v));
+    }
+    let own: Vec<Option<u64>> = (0..top.states.len()).map(|g| Some(bt.own[g] as u64)).collect();
+    let _ = spc_top;
+    let mut files = vec![bt.bytes];
+    if let Some(bbt) = bb {
+        for (o, t) in &bbt.comp {
+            comp.push(format!("back {} {}", o, t));
+        }
+        files.push(bbt.bytes);
+    }
+    Ok(CaseImages { files, comp, flat: vec![rle_tokens(&flat), rle_tokens(&own)] })
+}
+
+pub fn gen_ops(rng: &mut Rng, c: &mut Case, profile: Profile, nops: usize) {
+    let mut rng = rng.clone();
+    let c = c;
     let bs = 1u64 << c.bsb;
     let cs = 1u64 << c.cb;
     let nops = rng.range((nops / 2).max(1) as u64, nops as u64) as usize;
@@ -273,15 +431,15 @@ pub fn gen_case(seed: u64, id: usize, profile: Profile, nops: usize) -> Case {
         let op = match profile {
             Profile::General => match r {
                 0..=44 => {
-                    let (off, len) = gen_range(&mut rng, &c, 6);
+                    let (off, len) = gen_range(&mut rng, &*c, 6);
                     Op::Write { off, len, tok }
                 }
                 45..=69 => {
-                    let (off, len) = gen_range(&mut rng, &c, 8);
+                    let (off, len) = gen_range(&mut rng, &*c, 8);
                     Op::Read { off, len }
                 }
                 70..=79 => {
-                    let (off, len) = gen_range(&mut rng, &c, 8);
+                    let (off, len) = gen_range(&mut rng, &*c, 8);
                     // discard takes arbitrary byte ranges
                     let j = rng.below(4);
                     let off2 = if j == 0 { off + rng.below(cs) } else { off };
@@ -298,7 +456,7 @@ pub fn gen_case(seed: u64, id: usize, profile: Profile, nops: usize) -> Case {
                 96..=97 => Op::Fsync,
                 _ => {
                     // invalid request
-                    let (off, len) = gen_range(&mut rng, &c, 2);
+                    let (off, len) = gen_range(&mut rng, &*c, 2);
                     match rng.below(4) {
                         0 => Op::Write { off: off + 1, len, tok },
                         1 => Op::Read { off, len: len + 3 },
@@ -307,9 +465,46 @@ pub fn gen_case(seed: u64, id: usize, profile: Profile, nops: usize) -> Case {
                     }
                 }
             },
+            Profile::Flushy => match r {
+                0..=34 => {
+                    let (off, len) = gen_range(&mut rng, &*c, 5);
+                    Op::Write { off, len, tok }
+                }
+                35..=49 => {
+                    let (off, len) = gen_range(&mut rng, &*c, 6);
+                    Op::Read { off, len }
+                }
+                50..=59 => {
+                    let (off, len) = gen_range(&mut rng, &*c, 6);
+                    Op::Discard { off, len }
+                }
+                60..=74 => Op::Flush,
+                75..=84 => Op::Shrink,
+                85..=96 => Op::Reopen { bsb: rng.range(9, 12.min(c.cb as u64)) as u8, l2: None, rb: None },
+                _ => Op::Fsync,
+            },
+            Profile::Cow => match r {
+                0..=54 => {
+                    // sub-cluster and straddling writes
+                    let (off, len) = gen_range(&mut rng, &*c, 2);
+                    let len = if rng.chance(2, 3) { len.min(bs * rng.range(1, 4)) } else { len };
+                    Op::Write { off, len, tok }
+                }
+                55..=74 => {
+                    let (off, len) = gen_range(&mut rng, &*c, 4);
+                    Op::Read { off, len }
+                }
+                75..=82 => {
+                    let (off, len) = gen_range(&mut rng, &*c, 4);
+                    Op::Discard { off, len }
+                }
+                83..=91 => Op::Flush,
+                92..=94 => Op::Shrink,
+                _ => Op::Reopen { bsb: rng.range(9, 12.min(c.cb as u64)) as u8, l2: None, rb: None },
+            },
             Profile::Churn => match r {
                 0..=39 => {
-                    let (mut off, len) = gen_range(&mut rng, &c, 4);
+                    let (mut off, len) = gen_range(&mut rng, &*c, 4);
                     off %= (16 * cs).min(align_down(c.size, bs));
                     let off = align_down(off, bs);
                     let len = len.min(align_down(c.size, bs) - off).max(bs);
@@ -321,7 +516,7 @@ pub fn gen_case(seed: u64, id: usize, profile: Profile, nops: usize) -> Case {
                     Op::Discard { off: g * cs, len: n * cs }
                 }
                 70..=84 => {
-                    let (off, len) = gen_range(&mut rng, &c, 4);
+                    let (off, len) = gen_range(&mut rng, &*c, 4);
                     Op::Read { off, len }
                 }
                 85..=92 => Op::Flush,
@@ -360,7 +555,7 @@ pub fn gen_case(seed: u64, id: usize, profile: Profile, nops: usize) -> Case {
                         Op::Discard { off, len: dl }
                     }
                     85..=92 => {
-                        let (off, len) = gen_range(&mut rng, &c, 2);
+                        let (off, len) = gen_range(&mut rng, &*c, 2);
                         Op::Write { off, len, tok }
                     }
                     _ => Op::Flush,
@@ -381,7 +576,6 @@ pub fn gen_case(seed: u64, id: usize, profile: Profile, nops: usize) -> Case {
     if profile == Profile::Validate && rng.chance(1, 3) {
         c.rdonly = true;
     }
-    c
 }
 
 /// the metadata seen through a file alone (no caches): used after flush
@@ -620,13 +814,20 @@ impl Runner {
         // one reopen with the same parameters, one with different ones
         let mut plist = vec![self.case.params()];
         let bsb = rng.range(9, 12.min(self.case.cb as u64)) as u8;
-        plist.push(Qcow2DevParams::new(
-            bsb,
-            pick_slice(&mut rng, bsb, self.case.cb, true),
-            pick_slice(&mut rng, bsb, self.case.cb, true),
-            true,
-            false,
-        ));
+        // the same parameters go to every image of the chain: custom slice sizes
+        // only when the case itself uses them (chain with one cluster size)
+        let custom = self.files.len() == 1 || self.case.l2.is_some() || self.case.rb.is_some();
+        if custom {
+            plist.push(Qcow2DevParams::new(
+                bsb,
+                pick_slice(&mut rng, bsb, self.case.cb, true),
+                pick_slice(&mut rng, bsb, self.case.cb, true),
+                true,
+                false,
+            ));
+        } else {
+            plist.push(Qcow2DevParams::new(9, None, None, true, false));
+        }
         for (j, p) in plist.iter().enumerate() {
             let r = catch_unwind(AssertUnwindSafe(|| {
                 block_on(async {
